@@ -228,6 +228,9 @@ class Ctx:
                  "front_single": "Proofs/GenEquivFE", "front_joint": "Proofs/GenEquivFE", "main_loop_suffix": "Proofs/GenEquivRS",
                  "cm_repopulate": "Proofs/GenEquivPH", "cm_update_all": "Proofs/GenEquivPH", "la_predict": "Proofs/GenEquivPH",
                  "ll_point": "Proofs/GenEquivLW", "ll_table": "Proofs/GenEquivLW", "gl_stats": "Proofs/GenEquivLW", "la_initial": "Proofs/GenEquivLW",
+                 "cm_ranked": "Proofs/GenEquivAR", "ua_shallow": "Proofs/GenEquivAR", "ua_deep": "Proofs/GenEquivAR", "aa_shallow": "Proofs/GenEquivAR", "aa_deep": "Proofs/GenEquivAR",
+                 "cp_init": "Proofs/GenEquivCO", "cp_empty": "Proofs/GenEquivCO", "cp_shallow": "Proofs/GenEquivCO", "cp_deep": "Proofs/GenEquivCO",
+                 "st_init": "Proofs/GenEquivCO", "st_empty": "Proofs/GenEquivCO", "st_shallow": "Proofs/GenEquivCO", "st_deep": "Proofs/GenEquivCO",
                  "front_split": "Proofs/GenEquivGU", "admm_front": "Proofs/GenEquivGU", "admm_x": "Proofs/GenEquivGU", "pool": "Proofs/GenEquivGU",
                  "cluster_maintenance": "Proofs/GenEquivCR", "graphical_lasso": "Proofs/GenEquivGL",
                  "matrix_compression": "Proofs/GenEquivMC", "model_state": "Proofs/GenEquivMS",
